@@ -16,11 +16,11 @@ import (
 )
 
 type dlRoles struct {
-	T                                           string
-	Set, Timeout, New, Done, Err, DeadlineFn    *ssa.Function
-	mu, timer, done, deadline, state, pending   string
-	stStopped, stStarted, stExceeded            int64
-	problems                                    []string
+	T                                         string
+	Set, Timeout, New, Done, Err, DeadlineFn  *ssa.Function
+	mu, timer, done, deadline, state, pending string
+	stStopped, stStarted, stExceeded          int64
+	problems                                  []string
 }
 
 func resolveDeadline(p *Prog) *dlRoles {
@@ -164,29 +164,29 @@ func (r *dlRoles) stName(k int64) string {
 
 // dlPath is the abstract summary of one path.
 type dlPath struct {
-	entry        map[int64]bool // possible entry states
-	stopCalled   bool
-	stopTrue     bool
-	stopKnown    bool
-	arg          string // zero | future | past | ?
-	dPending     int64
-	arms         int
-	closes       int
-	newDone      int
-	newDoneFirst bool // NEWDONE precedes every CLOSE/ARM
-	finalState   int64
-	stateSet     bool
-	deadlineSet  bool
-	feasible     bool
-	firstEffect  string
-	closeGuardOK bool
-	desc         []string
-	lastPos      token.Pos
+	entry             map[int64]bool // possible entry states
+	stopCalled        bool
+	stopTrue          bool
+	stopKnown         bool
+	arg               string // zero | future | past | ?
+	dPending          int64
+	arms              int
+	closes            int
+	newDone           int
+	newDoneFirst      bool // NEWDONE precedes every CLOSE/ARM
+	finalState        int64
+	stateSet          bool
+	deadlineSet       bool
+	feasible          bool
+	firstEffect       string
+	closeGuardOK      bool
+	desc              []string
+	lastPos           token.Pos
 	stopBeforeEffects bool
-	closedVal    ssa.Value
+	closedVal         ssa.Value
 	unlockBeforeClose bool
-	stopEntry    map[int64]bool // entry states under which Stop may be invoked
-	pendingAtClose string
+	stopEntry         map[int64]bool // entry states under which Stop may be invoked
+	pendingAtClose    string
 }
 
 func (r *dlRoles) walk(f *ssa.Function, path upath) dlPath {
@@ -658,4 +658,3 @@ func lastPos(pt upath, f *ssa.Function) token.Pos {
 	}
 	return f.Pos()
 }
-
